@@ -436,27 +436,35 @@ func (w *errWriter) Write(p []byte) (int, error) {
 //   - a read group auxiliary field must refer to a read group listed in the
 //     header and these must agree on platform unit and library.
 func (bh *Header) Validate(r *Record) error {
-	rp := r.AuxFields.Get(programTag)
+	// auxValue is the value of a field that may be absent.
+	auxValue := func(t Tag) interface{} {
+		a := r.AuxFields.Get(t)
+		if len(a) < 3 {
+			return nil
+		}
+		return a.Value()
+	}
+	rp := auxValue(programTag)
 	found := false
 	for _, hp := range bh.Progs() {
-		if hp.UID() == rp.Value() {
+		if hp.UID() == rp {
 			found = true
 			break
 		}
 	}
 	if !found && len(bh.Progs()) != 0 {
-		return fmt.Errorf("sam: program uid not found: %v", rp.Value())
+		return fmt.Errorf("sam: program uid not found: %v", rp)
 	}
 
-	rg := r.AuxFields.Get(readGroupTag)
+	rg := auxValue(readGroupTag)
 	found = false
 	for _, hg := range bh.RGs() {
-		if hg.Name() == rg.Value() {
-			rPlatformUnit := r.AuxFields.Get(platformUnitTag).Value()
+		if hg.Name() == rg {
+			rPlatformUnit := auxValue(platformUnitTag)
 			if rPlatformUnit != hg.PlatformUnit() {
 				return fmt.Errorf("sam: mismatched platform for read group %s: %v != %v", hg.Name(), rPlatformUnit, hg.platformUnit)
 			}
-			rLibrary := r.AuxFields.Get(libraryTag).Value()
+			rLibrary := auxValue(libraryTag)
 			if rLibrary != hg.Library() {
 				return fmt.Errorf("sam: mismatched library for read group %s: %v != %v", hg.Name(), rLibrary, hg.library)
 			}
@@ -465,7 +473,7 @@ func (bh *Header) Validate(r *Record) error {
 		}
 	}
 	if !found && len(bh.RGs()) != 0 {
-		return fmt.Errorf("sam: read group not found: %v", rg.Value())
+		return fmt.Errorf("sam: read group not found: %v", rg)
 	}
 
 	return nil
